@@ -328,7 +328,16 @@ Definition set_last (n : neg) (o a : txt) : neg :=
 (* id: identity of the text the call produces (fresh, non-zero) *)
 Definition create_offer (n : neg) (id : N) : neg * result unit :=
   if closed n then (n, Err EInvalidState)
-  else (set_last n {| t_id := id; t_fl := good_flags |} (lastAnswer n), Ok tt).
+  else
+    (* with a current remote description the offer is generated against the
+       remote description (generateMatchedSDP), which refuses sections without mid *)
+    let matched_ok :=
+      match curR n, remote_description n with
+      | Some _, Some rd => all_mid (t_fl (d_txt rd))
+      | _, _ => true
+      end in
+    if negb matched_ok then (n, Err ENoMid)
+    else (set_last n {| t_id := id; t_fl := good_flags |} (lastAnswer n), Ok tt).
 
 (* snd: whether this connection's senders can start under the answer produced
    (false when the answer drops the codec of a bound track) *)
